@@ -1,4 +1,5 @@
 """Value objects shared by the workload and the reference model."""
+import dataclasses
 import enum
 import hashlib
 
@@ -144,6 +145,14 @@ class FalsyError(Exception):
         return 0
 
 
+@dataclasses.dataclass(frozen=True)
+class FrozenError(Exception):
+    """An exception class that forbids attribute assignment (a frozen dataclass carrying structured error data):
+    `exc.__traceback__ = ...` written in Python raises FrozenInstanceError; `with_traceback` does not."""
+
+    msg: str = ""
+
+
 class FalsyBase(BaseException):
     def __bool__(self):
         return False
@@ -155,6 +164,7 @@ EXC_TYPES = {
     "B1": B1,
     "F1": FalsyError,
     "F2": FalsyBase,
+    "Z1": FrozenError,
     "SystemExit": SystemExit,
     "KeyboardInterrupt": KeyboardInterrupt,
     "OSError": OSError,
